@@ -285,6 +285,7 @@ var (
 //
 // See also: ReleaseAST(), GetSelectStatement(), GetInsertStatement()
 func NewAST() *AST {
+	verifPoolGate("ast.get")
 	return astPool.Get().(*AST)
 }
 
@@ -360,6 +361,7 @@ func ReleaseAST(ast *AST) {
 
 	// Return to pool
 	astPool.Put(ast)
+	verifPoolGate("ast.put")
 }
 
 // ReleaseStatements returns a slice of statements back to their respective pools.
